@@ -45,6 +45,44 @@ pub struct CycleCase {
     pub log2_steps: u32,
 }
 
+/// the statement's consequence for users: a generator obtained through any public constructor is
+/// never in the all-zero state, neither at once nor after k steps, and its state does not come
+/// back to the starting state within k steps
+#[derive(Clone, Debug, Serialize, Deserialize)]
+pub struct ApiCase {
+    pub ty: Ty,
+    pub input: crate::props::c08::Input,
+    pub k: usize,
+}
+
+pub fn check_api_seeded(c: &ApiCase) -> CheckResult {
+    use crate::adapter;
+    use crate::props::c08::Input;
+    use crate::src::{ByteSrc, FailSrc};
+    let name = c.ty.name();
+    let (mut g, how, special) = match &c.input {
+        Input::Seed(s) => (adapter::from_seed(c.ty, &s.bytes), "from_seed", s.is_zero()),
+        Input::U64(x) => (adapter::seed_from_u64(c.ty, *x), "seed_from_u64", *x == 0 || *x == 0u64.wrapping_sub(0x9e3779b97f4a7c15)),
+        Input::FromRng(spec) => (adapter::from_rng(c.ty, &mut ByteSrc::new(spec.clone())), "from_rng", spec.bytes(0, c.ty.info().seed_len).iter().all(|&b| b == 0)),
+        Input::TryFromRng(spec) => match adapter::try_from_rng(c.ty, &mut FailSrc::new(spec.clone(), None, 7)) {
+            Ok(g) => (g, "try_from_rng", spec.bytes(0, c.ty.info().seed_len).iter().all(|&b| b == 0)),
+            Err(_) => return Ok(CaseInfo::new(false).class("constructor-error (C09's subject)")),
+        },
+    };
+    let zero = adapter::from_state_bytes(c.ty, &vec![0u8; c.ty.info().seed_len]).ok_or_else(|| Fail::inconclusive("C07:observation", "cannot build the zero-state generator through Deserialize"))?;
+    let start = g.clone_box();
+    for step in 0..=c.k {
+        if g.eq_dyn(&*zero) != Some(false) {
+            return Err(Fail::new(format!("C07:api-seeded-zero-state:{}:{}", name, how), format!("a generator obtained through {} is in the all-zero state after {} steps: it sits on the fixed point outside the 2^n-1 cycle and returns the same value forever", how, step)));
+        }
+        if step > 0 && g.eq_dyn(&*start) != Some(false) {
+            return Err(Fail::new(format!("C07:api-seeded-repeats:{}:{}", name, how), format!("a generator obtained through {} is back in its starting state after {} steps", how, step)));
+        }
+        let _ = g.next_native();
+    }
+    Ok(CaseInfo::new(special).class(format!("ctor:{}", how)).class_if(special, "zero-block-or-zero-expansion"))
+}
+
 fn inconcl(e: String) -> Fail {
     Fail::inconclusive("C07:observation", e)
 }
@@ -228,6 +266,23 @@ pub fn def(ctx: &Ctx) -> PropDef {
             move || (gens::seed_for(ty, false), 0usize..512).prop_map(move |(s, tap)| MinPolyCase { ty, s, tap }).boxed(),
             check_minpoly,
         ));
+        let bl = ty.info().seed_len;
+        subs.push(PSub::boxed(
+            format!("api-seeded/{}", ty.name()),
+            t.pick(3000, 300_000),
+            move || {
+                use crate::props::c08::Input;
+                let input = prop_oneof![
+                    3 => gens::seed_for(ty, true).prop_map(Input::Seed),
+                    1 => Just(Input::Seed(Seed { class: "zero".into(), bytes: vec![0u8; bl] })),
+                    4 => gens::interesting_u64().prop_map(Input::U64),
+                    2 => gens::src_spec(bl, 3).prop_map(Input::FromRng),
+                    2 => gens::src_spec(bl, 3).prop_map(Input::TryFromRng),
+                ];
+                (input, 0usize..=40).prop_map(move |(input, k)| ApiCase { ty, input, k }).boxed()
+            },
+            check_api_seeded,
+        ));
         let lg = t.pick(16u32, 24);
         subs.push(PSub::boxed(
             format!("cycle-probe/{}", ty.name()),
@@ -241,7 +296,7 @@ pub fn def(ctx: &Ctx) -> PropDef {
     }
     PropDef {
         id: "C07",
-        rule: "for each of the 15 linear generator types: T (the GF(2) matrix of one next call) is extracted by executing the real step on the n basis states; generated states (uniform, sparse, dense, special words, single byte) then check (i) linearity step(a^b) = step(a)^step(b) and agreement T·s = step(s), (ii) T^k·s = k real steps for generated k, also started k steps BEFORE structured target states (preimages under T^-k of states with zero / small / equal / complementary / negated / constant words), so that guards keyed on the freshly computed state are reached, (iii) Berlekamp-Massey on a generated state bit of the real 2n+8-step state sequence gives a degree-n minimal polynomial m with x^(2^n-1) = 1 and x^((2^n-1)/p) != 1 mod m for every prime p | 2^n-1, (iv) rank(T) = n, T·0 = 0, (v) cycle probes of 2^16 (thorough 2^24) real steps never return to the start nor reach zero; thorough adds the matrix-order route T^(2^n) = T, T^((2^n-1)/p) != I. Non-trivial = generated (non-basis) states of weight >= 2; distinct by hash of the case.".into(),
+        rule: "for each of the 15 linear generator types: T (the GF(2) matrix of one next call) is extracted by executing the real step on the n basis states; generated states (uniform, sparse, dense, special words, single byte) then check (i) linearity step(a^b) = step(a)^step(b) and agreement T·s = step(s), (ii) T^k·s = k real steps for generated k, also started k steps BEFORE structured target states (preimages under T^-k of states with zero / small / equal / complementary / negated / constant words), so that guards keyed on the freshly computed state are reached, (iii) Berlekamp-Massey on a generated state bit of the real 2n+8-step state sequence gives a degree-n minimal polynomial m with x^(2^n-1) = 1 and x^((2^n-1)/p) != 1 mod m for every prime p | 2^n-1, (iv) rank(T) = n, T·0 = 0, (v) cycle probes of 2^16 (thorough 2^24) real steps never return to the start nor reach zero, (vi) the consequence the statement draws for users: generators obtained through every public constructor (from_seed incl. zero and near-zero seeds, seed_from_u64 incl. 0 and the SplitMix64 pre-image of 0, from_rng / try_from_rng over sources with leading zero blocks) are never in the all-zero state during their first 0..40 steps and do not return to their starting state; thorough adds the matrix-order route T^(2^n) = T, T^((2^n-1)/p) != I. Non-trivial = generated (non-basis) states of weight >= 2; distinct by hash of the case.".into(),
         explanation: Some("Running the code cannot observe a period of 2^64-1 .. 2^512-1. What the generated inputs decide is that the code's step IS the linear map T (basis images, BLR linearity relation on generated pairs, direct agreement on generated states). For T the statement is computed exactly: rank n makes it a bijection; a degree-n primitive minimal polynomial makes GF(2)[x]/(m) a field in which multiplication by x has order 2^n-1 and acts as a single cycle on the non-zero elements. The only unproved link is linearity outside the sampled states; the complete factorisation of 2^n-1 (Fermat numbers F0..F8, products verified at start-up; primality of the 13 factors checked at design time) is a stated assumption.".into()),
         assumptions: vec![
             "the step is GF(2)-linear outside the sampled states (sampled: BLR relation on generated pairs)".into(),
